@@ -1,6 +1,7 @@
 import TcheranVerif.Model.See
 import TcheranVerif.Proofs.SeeMirror
 import TcheranVerif.Proofs.SeeSwap
+import TcheranVerif.Proofs.SeeKing
 import TcheranVerif.Props.C07
 /-!
 # C20 — static exchange evaluation at threshold 0
@@ -33,7 +34,8 @@ Theorems over the exact model of `see` (`Model/See.lean`, piece values regenerat
   never captured; with an even value in the table, or another threshold, `≤` in the engine's stop test would be wrong,
   see the `example` below.) `capturers` is the sequence the model's own bitboard bookkeeping produces (least valuable
   attacker, x-ray refresh, king rule); that it is the sequence an independent mailbox computation produces on
-  tie-free positions is decided by the `see` stream (implementation vs. `See.swapValue`): that part stays partial.
+  tie-free positions is decided by the `see` stream (implementation vs. `See.swapValue`): that part stays partial. `king_first_capture` discharges the hypothesis about a king making the first capture for
+  every king capture the generator emits; `spec_is_swaplist` shows the mailbox computation is the same fold.
 -/
 namespace Tcheran.Props.C20
 open Tcheran Tcheran.See
@@ -208,6 +210,34 @@ theorem see_swaplist (g : Game) (mv : Move) (moved : Piece) (occ : BB) (r : Bool
   rw [e]
   exact decide_eq_decide.2 this
 
+/-- what the generator has checked before it emits a king capture (`generate_king_captures`) -/
+theorem kingCaptures_safe (g : Game) (king : Sq) (theirs : BB) (m : Move) (h : m ∈ Gen.kingCaptures g king theirs) :
+    m.src = king ∧ m.isEnPassant = false ∧ attackersOf (g.board.removeAt king) g.player m.dst = 0#64 := by
+  unfold Gen.kingCaptures at h
+  simp only [List.mem_flatMap] at h
+  obtain ⟨d, _, hm⟩ := h
+  split at hm
+  · rename_i hz
+    simp only [List.mem_singleton] at hm
+    subst hm
+    refine ⟨rfl, rfl, ?_⟩
+    show attackersOf (g.board.removeAt king) g.player d = 0#64
+    simpa using hz
+  · cases hm
+
+/-- **king_first_capture**: the hypothesis `hking` of `see_swaplist` holds for every king capture the generator
+emits — the test it has made (`kingCaptures_safe`: no attacker of the target on the board with the king lifted) is
+the statement that, with the occupancy `see` uses, no man of the opponent attacks the target (`king_capture_safe`) -/
+theorem king_first_capture (g : Game) (mv : Move) (occ : BB) (pd : Piece) (hc : Board.Consistent g.board)
+    (hsrc : g.board.pieceAt mv.src = some ⟨.king, g.player⟩) (hocc : occAfter g mv = some occ)
+    (hnep : mv.isEnPassant = false) (hd : g.board.pieceAt mv.dst = some pd) (hpd : pd.player = g.player.other)
+    (hsafe : attackersOf (g.board.removeAt mv.src) g.player mv.dst = 0#64) :
+    (allAttackersOf g.board mv.dst occ &&& occ) &&& g.board.occFor g.player.other = 0#64 := by
+  unfold occAfter at hocc
+  simp only [hnep, Bool.false_eq_true, if_false, Option.some.injEq] at hocc
+  subst hocc
+  exact king_capture_safe g.board hc g.player mv.src mv.dst pd hsrc hd hpd hsafe
+
 /-- **spec_is_swaplist**: the independent mailbox computation the `see` stream compares against (`See.swapValue`)
 is the same fold `swapAbs`, over the capturers *it* finds on the mailbox board (`See.seq`) — so `see_swaplist`
 and this leave exactly one thing to the stream: that the two sequences agree on tie-free positions -/
@@ -274,3 +304,5 @@ end Tcheran.Props.C20
 #print axioms Tcheran.Props.C20.gain_odd
 #print axioms Tcheran.Props.C20.see_swaplist
 #print axioms Tcheran.Props.C20.spec_is_swaplist
+#print axioms Tcheran.Props.C20.kingCaptures_safe
+#print axioms Tcheran.Props.C20.king_first_capture
